@@ -196,6 +196,15 @@ func (p *Property) runImpl(ops []string) []string {
 	}
 	close(idx)
 	wg.Wait()
+	// an operation that did not finish within the watchdog's time while sixteen others (and
+	// whatever else the machine is doing) were running is run once more on its own with a much
+	// longer limit: only what still does not return counts as a hang
+	for i := range ops {
+		if out[i] == "hang" {
+			op, args := splitOp(ops[i])
+			out[i] = callAdapter(p.Impl[op], args, 240*time.Second)
+		}
+	}
 	return out
 }
 
